@@ -70,7 +70,7 @@ func c13Keys() {
 		for i := 0; i < 5; i++ {
 			c13Ed = append(c13Ed, c13MkKey(ic.Ed25519, 0))
 		}
-		for i := 0; i < 3; i++ {
+		for i := 0; i < 5; i++ {
 			c13Rsa = append(c13Rsa, c13MkKey(ic.RSA, 2048))
 		}
 		c13Local = c13MkKey(ic.Ed25519, 0)
